@@ -291,3 +291,29 @@ class RSeq:
         self.keys = keys
         self.kind = kind
         self.label = label
+
+
+class Maybe:
+    """A dict entry that is present iff `cond` (z3 Bool) holds."""
+    __slots__ = ("cond", "value")
+
+    def __init__(self, cond, value):
+        self.cond = cond
+        self.value = value
+
+    def __repr__(self):
+        return "Maybe(%s, %r)" % (self.cond, self.value)
+
+
+class MapSeq:
+    """[f(x) for x in <symbolic sequence>]: element j is `value` (an interpreter
+    value built at the generic bound index `j`)."""
+    def __init__(self, seq, j, value, kind="list"):
+        self.seq = seq
+        self.j = j
+        self.value = value
+        self.kind = kind
+
+    @property
+    def length(self):
+        return self.seq.length if isinstance(self.seq, SList) else self.seq.region.length
